@@ -5,179 +5,11 @@
    model run on code laid out that way reaches the globals of the semantics
    (induction on the fuel; the loop is re-entered at its start pc). *)
 From Coq Require Import ZArith NArith List Bool Lia ZifyBool ZifyNat ZifyN Floats.
-From EvyV Require Import Base Bytecode BytecodeProofs SymTab SymTabProofs Vm VmProofs Compile CompileProofs
+From EvyV Require Import Base Bytecode BytecodeProofs SymTab SymTabProofs Vm VmProofs Compile CompileSem CompileProofs
      CompileWfProofs CompileStmtProofs CompileJumpProofs CompileHoleProofs CompileSymProofs CompileCtlProofs.
 Require Import EvyV.Gen.Opcodes.
 Import ListNotations.
 Open Scope N_scope.
-
-(* ---------- semantics ---------- *)
-(* [None]: out of fuel, or an expression whose evaluation is undefined
-   (eval_expr), or a statement outside the fragment; the boolean of a result
-   says that a `break` is under way (the innermost enclosing loop ends it) *)
-(* the element of an iterable at position i: OpIterRange *)
-Definition iter_elem (iter : value) (i : nat) : option value :=
-  match iter with
-  | VArr l => nth_error l i
-  | VMap m => option_map (fun kv => VStr (fst kv)) (nth_error m i)
-  | VStr s => let runes := utf8_decode s in
-              if (i <? List.length runes)%nat then Some (VStr (utf8_encode (firstn 1 (skipn i runes)))) else None
-  | _ => None
-  end.
-(* None: the counter is not a non-negative integer (cannot happen from 0 by +1
-   below 2^53); Some None: the iteration is over *)
-Definition iter_next (iter : value) (idx : float) : option (option value) :=
-  match float_to_Z idx with
-  | Some z => if (z <? 0)%Z then None else Some (iter_elem iter (Z.to_nat z))
-  | None => None
-  end.
-
-(* OpStepRange's `stillGoing` *)
-Definition going (idx stp stop : float) : bool :=
-  (PrimFloat.ltb 0 stp && PrimFloat.ltb idx stop) || (PrimFloat.ltb stp 0 && PrimFloat.ltb stop idx).
-
-Fixpoint exec_s (fuel : nat) (s : stmt) (env : genv) {struct fuel} : option (genv * bool) :=
-  match fuel with
-  | O => None
-  | S f =>
-      match s with
-      | SDecl n e => option_map (fun v => (upd env n v, false)) (eval_expr env e)
-      | SAssign (EVar n) e => option_map (fun v => (upd env n v, false)) (eval_expr env e)
-      | SEmpty => Some (env, false)
-      | SBreak => Some (env, true)
-      | SIf c b elifs els => exec_c f (CCons c b elifs) els env
-      | SForStep None start stop step b =>
-          match eval_expr env stop, eval_expr env (match step with OSome e => e | ONoneE => ENum 1 end),
-                eval_expr env (match start with OSome e => e | ONoneE => ENum 0 end) with
-          | Some (VNum vstop), Some (VNum vstep), Some (VNum vstart) =>
-              if PrimFloat.eqb vstep 0 then None          (* ErrRangeValue *)
-              else exec_r f vstart vstep vstop b env
-          | _, _, _ => None
-          end
-      | SForStep (Some n) start stop step b =>
-          (* the loop variable: at top level a global, set to none first *)
-          match eval_expr env stop, eval_expr env (match step with OSome e => e | ONoneE => ENum 1 end),
-                eval_expr env (match start with OSome e => e | ONoneE => ENum 0 end) with
-          | Some (VNum vstop), Some (VNum vstep), Some (VNum vstart) =>
-              if PrimFloat.eqb vstep 0 then None
-              else exec_rv f n vstart vstep vstop b (upd env n VNone)
-          | _, _, _ => None
-          end
-      | SForIter (Some n) t e b =>
-          (* over the elements of an array / the characters of a string / the keys of a map *)
-          match t with
-          | TStr | TArr | TMap =>
-              match eval_expr env e with
-              | Some iter => exec_iv f n 0%float iter b (upd env n VNone)
-              | None => None
-              end
-          | _ => None
-          end
-      | SWhile c b =>
-          match eval_expr env c with
-          | Some (VBool true) =>
-              match exec_l f b env with
-              | Some (env1, false) => exec_s f (SWhile c b) env1
-              | Some (env1, true) => Some (env1, false)          (* break leaves the loop *)
-              | None => None
-              end
-          | Some (VBool false) => Some (env, false)
-          | _ => None
-          end
-      | _ => None
-      end
-  end
-with exec_l (fuel : nat) (l : slist) (env : genv) {struct fuel} : option (genv * bool) :=
-  match fuel with
-  | O => None
-  | S f =>
-      match l with
-      | SNil => Some (env, false)
-      | SCons s1 t =>
-          match exec_s f s1 env with
-          | Some (env1, false) => exec_l f t env1
-          | Some (env1, true) => Some (env1, true)               (* the rest of the block is skipped *)
-          | None => None
-          end
-      end
-  end
-(* `for range start stop step` without loop variable, from index idx on *)
-with exec_r (fuel : nat) (idx stp stop : float) (b : slist) (env : genv) {struct fuel} : option (genv * bool) :=
-  match fuel with
-  | O => None
-  | S f =>
-      if going idx stp stop then
-        match exec_l f b env with
-        | Some (env1, false) => exec_r f (idx + stp)%float stp stop b env1
-        | Some (env1, true) => Some (env1, false)              (* break leaves the loop *)
-        | None => None
-        end
-      else Some (env, false)
-  end
-(* `for n := range start stop step`, from index idx on *)
-with exec_rv (fuel : nat) (n : str) (idx stp stop : float) (b : slist) (env : genv) {struct fuel} : option (genv * bool) :=
-  match fuel with
-  | O => None
-  | S f =>
-      if going idx stp stop then
-        match exec_l f b (upd env n (VNum idx)) with
-        | Some (env1, false) => exec_rv f n (idx + stp)%float stp stop b env1
-        | Some (env1, true) => Some (env1, false)
-        | None => None
-        end
-      else Some (env, false)
-  end
-(* `for n := range iter`, from (float) index idx on *)
-with exec_iv (fuel : nat) (n : str) (idx : float) (iter : value) (b : slist) (env : genv) {struct fuel} : option (genv * bool) :=
-  match fuel with
-  | O => None
-  | S f =>
-      match iter_next iter idx with
-      | Some (Some v) =>
-          match exec_l f b (upd env n v) with
-          | Some (env1, false) => exec_iv f n (idx + 1)%float iter b env1
-          | Some (env1, true) => Some (env1, false)
-          | None => None
-          end
-      | Some None => Some (env, false)
-      | None => None
-      end
-  end
-(* the condition chain of an if statement: the first true condition runs its block *)
-with exec_c (fuel : nat) (l : clist) (els : oslist) (env : genv) {struct fuel} : option (genv * bool) :=
-  match fuel with
-  | O => None
-  | S f =>
-      match l with
-      | CNil => match els with NoElse => Some (env, false) | Else eb => exec_l f eb env end
-      | CCons c b t =>
-          match eval_expr env c with
-          | Some (VBool true) => exec_l f b env
-          | Some (VBool false) => exec_c f t els env
-          | _ => None
-          end
-      end
-  end.
-
-(* the deepest expression of a statement *)
-Fixpoint sdepth (s : stmt) : N :=
-  match s with
-  | SDecl _ e | SAssign _ e => edepth e
-  | SIf c b elifs els => N.max (edepth c) (N.max (ldepth b) (N.max (cdepth elifs) (match els with NoElse => 0 | Else eb => ldepth eb end)))
-  | SWhile c b => N.max (edepth c) (ldepth b)
-  | SForStep _ start stop step b =>
-      (* the operands are evaluated on top of each other; the loop keeps 3 slots and pushes a flag *)
-      N.max (edepth stop)
-        (N.max (1 + edepth (match step with OSome e => e | ONoneE => ENum 1 end))
-           (N.max (2 + edepth (match start with OSome e => e | ONoneE => ENum 0 end))
-              (N.max 5 (3 + ldepth b))))
-  | SForIter _ _ e b => N.max (edepth e) (N.max 4 (2 + ldepth b))
-  | _ => 0
-  end
-with ldepth (l : slist) : N :=
-  match l with SNil => 0 | SCons s t => N.max (sdepth s) (ldepth t) end
-with cdepth (l : clist) : N :=
-  match l with CNil => 0 | CCons c b t => N.max (edepth c) (N.max (ldepth b) (cdepth t)) end.
 
 (* ---------- the layout of compiled statements ---------- *)
 Definition same_resolve (a b : symtab) : Prop := forall n, st_resolve n a = st_resolve n b.
@@ -1101,22 +933,6 @@ Qed.
 (* ====================================================================== *)
 (* Part 2: the compiler lays its code out that way                         *)
 (* ====================================================================== *)
-Fixpoint wfrag_stmt (s : stmt) : bool :=
-  match s with
-  | SAssign (EVar _) e => efrag e
-  | SEmpty => true
-  | SBreak => true
-  | SIf c b elifs els =>
-      efrag c && wfrag_slist b && wfrag_clist elifs && match els with NoElse => true | Else eb => wfrag_slist eb end
-  | SWhile c b => efrag c && wfrag_slist b
-  | SForStep None start stop step b => ofrag start && efrag stop && ofrag step && wfrag_slist b
-  | _ => false
-  end
-with wfrag_slist (l : slist) : bool :=
-  match l with SNil => true | SCons s t => wfrag_stmt s && wfrag_slist t end
-with wfrag_clist (l : clist) : bool :=
-  match l with CNil => true | CCons c b t => efrag c && wfrag_slist b && wfrag_clist t end.
-
 Lemma patch_bytes pre a h l rest T s s' :
   ccode s = pre ++ a :: h :: l :: rest ->
   patch true (Z.of_nat (List.length pre)) T s = COk s' ->
@@ -1752,18 +1568,6 @@ Qed.
 (* ====================================================================== *)
 (* Part 3: whole programs, from NewCompiler and NewVM                      *)
 (* ====================================================================== *)
-(* no break outside a loop *)
-Fixpoint nb_stmt (s : stmt) : bool :=
-  match s with
-  | SBreak => false
-  | SIf c b elifs els => nb_slist b && nb_clist elifs && match els with NoElse => true | Else eb => nb_slist eb end
-  | _ => true
-  end
-with nb_slist (l : slist) : bool :=
-  match l with SNil => true | SCons s t => nb_stmt s && nb_slist t end
-with nb_clist (l : clist) : bool :=
-  match l with CNil => true | CCons c b t => nb_slist b && nb_clist t end.
-
 Lemma nb_no_breaks :
   (forall brk s st st' bs seg, LAY brk s st st' bs seg -> nb_stmt s = true -> bs = []) /\
   (forall brk l st st' bs seg, LAYL brk l st st' bs seg -> nb_slist l = true -> bs = []) /\
@@ -1779,15 +1583,6 @@ Proof.
   - apply H. exact H1.
   - cbn [nb_clist] in H1. apply andb_true_iff in H1. destruct H1 as [F1 F2]. rewrite (H F1), (H0 F2 H2). reflexivity.
 Qed.
-
-Definition psfrag_stmt (s : stmt) : bool :=
-  match s with
-  | SDecl _ e => efrag e
-  | SForStep (Some _) start stop step b => ofrag start && efrag stop && ofrag step && wfrag_slist b
-  | SForIter (Some _) t e b => match t with TStr | TArr | TMap => efrag e && wfrag_slist b | _ => false end
-  | _ => wfrag_stmt s && nb_stmt s
-  end.
-Fixpoint psfrag (p : slist) : bool := match p with SNil => true | SCons s t => psfrag_stmt s && psfrag t end.
 
 Definition STEP (s : stmt) (st st' : cstate) : Prop :=
   forall fuel env env1, exec_s fuel s env = Some (env1, false) ->
